@@ -396,6 +396,15 @@ def frameAccepted (n : Node) (h : Hdr) (scan : Bool) : Bool :=
    | none => false) ||
   (nmapRunning && scan)
 
+/-- `Router.check_send_frame_to_session_manager` (routers and firewalls): the frame is handed to the session manager iff it is
+addressed to one of the router's own interfaces (`toRouter`, the routing layer's business — C08) and it is ICMP or its
+destination port is open. -/
+def routerAccepts (n : Node) (h : Hdr) (toRouter : Bool) : Bool :=
+  toRouter && (h == .icmp ||
+    (match h.dstPort with
+     | some p => n.openPorts.contains p
+     | none => false))
+
 /-! ### responses -/
 
 def svcReqOut (n : Node) (name : String) (r : SvcReq) : Out :=
